@@ -36,8 +36,7 @@ Lemma bloop_open f d p2 : bloop (S f) (91 :: d :: p2) =
     | Some (inside, rest) =>
       if d =? 58 then cont ([91; d] ++ inside ++ [d; 93]) rest false
       else match inside with
-           | [x] => if x =? RuneError then cont [] rest true
-                    else cont (if esc_in_bracket x then [92; x] else [x]) rest false
+           | [x] => cont (if esc_in_bracket x then [92; x] else [x]) rest false
            | _ => cont [] rest true
            end
     | None => cont [92; 91] (d :: p2) false
@@ -49,7 +48,7 @@ Lemma bloop_close f p : bloop (S f) (93 :: p) = Some ([93], p, false).
 Proof. reflexivity. Qed.
 
 Theorem collating_single g d x f rest :
-  (d = 46 \/ d = 61) -> x <> RuneError -> (0 < f)%nat ->
+  (d = 46 \/ d = 61) -> (0 < f)%nat ->
   citems f g (91 :: 91 :: d :: x :: d :: 93 :: 93 :: rest) =
   match citems (f - 1) g rest with
   | COk l => COk ((RClass false [CChar x], 91 :: txt (emit [x] ++ [93])) :: l)
@@ -57,14 +56,13 @@ Theorem collating_single g d x f rest :
   | CUnmodelled => CUnmodelled
   end.
 Proof.
-  intros Hd Hx Hf. destruct f as [|f]; [lia|]. replace (S f - 1)%nat with f by lia.
-  apply N.eqb_neq in Hx.
+  intros Hd Hf. destruct f as [|f]; [lia|]. replace (S f - 1)%nat with f by lia.
   assert (Hm : memb d [46; 61; 58] = true) by (destruct Hd as [->| ->]; reflexivity).
   assert (H58 : (d =? 58) = false) by (destruct Hd as [->| ->]; reflexivity).
   assert (He : (if esc_in_bracket x then [92; x] else [x]) ++ [93] = emit [x] ++ [93]).
   { unfold emit. cbn [flat_map]. now rewrite app_nil_r. }
   assert (Hb : bloop (S (length (91 :: d :: x :: d :: 93 :: 93 :: rest))) (91 :: d :: x :: d :: 93 :: 93 :: rest) = Some (emit [x] ++ [93], rest, false)).
-  { rewrite bloop_open. cbv zeta. rewrite Hm, (find_close_single d x (93 :: rest) Hd), H58, Hx.
+  { rewrite bloop_open. cbv zeta. rewrite Hm, (find_close_single d x (93 :: rest) Hd), H58.
     cbn [length]. rewrite bloop_close, He. reflexivity. }
   change (citems (S f) g (91 :: 91 :: d :: x :: d :: 93 :: 93 :: rest)) with
     (match bloop (S (length (91 :: d :: x :: d :: 93 :: 93 :: rest))) (91 :: d :: x :: d :: 93 :: 93 :: rest) with
